@@ -58,7 +58,7 @@ case "${1:-}" in
     if [ $CODE -eq 0 ] && [ "$TIER" = thorough ] && [ -z "${NFV_REPO:-}" ]; then
       case "$ID" in
         C01|C02|C09|C10|C12|C16)
-          /verif/tools/fuzz_phase.sh "$ID" "${NFV_FUZZ_RUNS:-400000}" 16
+          /verif/tools/fuzz_phase.sh "$ID" "${NFV_FUZZ_RUNS:-3000000}" 16
           CODE=$?
           ;;
       esac
